@@ -359,11 +359,20 @@ def run_demo(ctx, name, args, fp, what, env_extra=None, timeout=3000):
     env = dict(os.environ, PYTHONPATH=f'{REPO}:{VERIF}:' + os.environ.get('PYTHONPATH', ''),
                DEEPROB_DRIVER=os.path.join(LEAN, '.lake', 'build', 'bin', 'driver'), **(env_extra or {}))
     cmd = [sys.executable, script] + [str(a) for a in args]
-    try:
-        r = subprocess.run(cmd, cwd=VERIF, env=env, stdout=subprocess.PIPE, stderr=subprocess.STDOUT, text=True, timeout=timeout)
-    except subprocess.TimeoutExpired:
-        raise Infra(f'{name} timed out')
-    out = r.stdout
+    for attempt in range(3):
+        try:
+            r = subprocess.run(cmd, cwd=VERIF, env=env, stdout=subprocess.PIPE, stderr=subprocess.STDOUT, text=True, timeout=timeout)
+        except subprocess.TimeoutExpired:
+            raise Infra(f'{name} timed out')
+        out = r.stdout
+        if r.returncode != 0 and ('driver is not built' in out or 'driver not built' in out):
+            # another check is relinking the driver right now (the executable is replaced under the build lock): not a finding
+            with BuildLock():
+                pass
+            if attempt == 2:
+                raise Infra(f'{name}: the driver executable is missing')
+            continue
+        break
     ctx.count(f'demo:{name}:runs')
     ctx.extra.setdefault('demos', {})[name] = dict(args=[str(a) for a in args], rc=r.returncode, tail=out[-1500:])
     ctx.case(f'demo:{name}', nontrivial_key=f'{name}:{args}', sample=dict(script=name, args=[str(a) for a in args], output_tail=out[-600:]))
